@@ -6,19 +6,19 @@ ids = [json.loads(l)["id"] for l in open(os.path.join(V, "properties.jsonl"))]
 
 TB_MIR = "rustc's MIR construction (nightly 1.97) is the program; rules/tss.py abstract interpreter; "
 CHECKS = {
- "C01": dict(cat="other", ref="DESIGN.md §3.1", technique="static hazard-site analysis over the call graph of resolved MIR callees (rustc_private driver)",
-   text="Every crate-local MIR body reachable from the three evaluation entry points is scanned; every Assert terminator, integer arithmetic op, numeric cast and resolved callee is classified total/partial/silent. A pass means no reachable construct can panic or lose range, for all inputs; it is not a sample of inputs.",
+ "C01": dict(cat="other", ref="DESIGN.md §3.1", technique="static hazard-site analysis over every crate-local body reachable from evaluation in the monomorphic instance graph (rustc_private driver; resolved MIR callees)",
+   text="Every crate-local MIR body reachable from the three evaluation entry points - directly or through upstream generic code that calls back into hand-written Debug/Display/PartialEq/Clone/Drop impls - is scanned; every Assert terminator, integer arithmetic op, numeric cast and resolved callee is classified total/partial/silent. A pass means no reachable construct can panic or lose range, for all inputs; it is not a sample of inputs.",
    note=TB_MIR + "spec/callees.py classification of external callees (unclassified ones are assumed total and listed in the evidence); user functions and allocation failure excluded; 10 arithmetic-overflow sites are known findings."),
- "C02": dict(cat="other", ref="DESIGN.md §3.2", technique="tag-symbolic abstract interpretation of MIR; summary-vs-table comparison",
+ "C02": dict(cat="other", ref="DESIGN.md §3.2", technique="tag-symbolic abstract interpretation of MIR; summary-vs-table comparison; tree-rewrite equivalence by abstract evaluation of concrete tree levels with the crate's own evaluator",
    text="All 1540 (operator, operand-tag tuple) cells and the dispatch wiring of all 47 node kinds are read off the MIR and compared with a reviewed table. Decides that each cell is the designated operation on the designated operands in order with the designated error; does NOT decide numeric exactness of std/rust_decimal/chrono.",
    note=TB_MIR + "spec/optable.json (frozen from the fixed tree, reviewed); semantics of MIR primitives and named library functions as documented."),
- "C03": dict(cat="proof", ref="DESIGN.md §3.3", technique="exhaustive enumeration of the finite operand-tag domain by abstract interpretation of MIR",
+ "C03": dict(cat="proof", ref="DESIGN.md §3.3", technique="exhaustive enumeration of the finite operand-tag domain by abstract interpretation of MIR; tree-rewrite equivalence for constructors / transformers",
    text="The tag domain is finite (10 value types): every operator x every operand-tag tuple without None is enumerated (1275 cells + if/and/or/equality rows); unsupported tuples must be exactly Err(InvalidType) on every path, supported arithmetic cells must not convert operands. Exhaustive, so a proof over types given the trusted base.",
    note=TB_MIR + "spec/typerules.py written from the property text; payload-independence of type errors is checked, not assumed."),
- "C04": dict(cat="proof", ref="DESIGN.md §3.4", technique="exhaustive enumeration of the finite operand-tag domain by abstract interpretation of MIR",
+ "C04": dict(cat="proof", ref="DESIGN.md §3.4", technique="exhaustive enumeration of the finite operand-tag domain by abstract interpretation of MIR; tree-rewrite equivalence for constructors / transformers",
    text="All 276 operand tuples containing None (every operator, every tag of the other operand) plus the None paths of if/and/or/equality are enumerated; each must give the prescribed outcome on every path. Exhaustive over the finite tag domain.",
    note=TB_MIR + "spec/typerules.py none_rule written from the property text; derived PartialEq of Value."),
- "C05": dict(cat="other", ref="DESIGN.md §3.5", technique="path enumeration on the pre-transform coroutine CFG of the evaluator (ordered evaluation events)",
+ "C05": dict(cat="other", ref="DESIGN.md §3.5", technique="path enumeration on the pre-transform coroutine CFG of the evaluator (ordered evaluation events); tree-rewrite equivalence (traces) for constructors / transformers",
    text="Every acyclic path of the evaluator's coroutine body for each of the 47 node kinds (loops unrolled twice) is enumerated with its ordered sub-evaluations and compared with the specified path set: laziness of if/and/or/equality, left-to-right single evaluation elsewhere, first error ends evaluation.",
    note=TB_MIR + "await recogniser (poll == output of the awaited future); for-loops unrolled twice."),
  "C13": dict(cat="other", ref="DESIGN.md §3.13", technique="hazard-site analysis + tag-symbolic method summaries of the serde Serializer impls vs a per-kind mapping",
@@ -29,16 +29,16 @@ CHECKS = {
    note=TB_MIR + "std's i128::from / T::try_from<i128> are exact; Result-collect stops at the first error."),
 }
 CHECKS.update({
- "C09": dict(cat="other", ref="DESIGN.md §3.9", technique="path enumeration of the coroutine bodies of evaluate_value / evaluate (MIR), compared with the specified path set",
+ "C09": dict(cat="other", ref="DESIGN.md §3.9", technique="path enumeration of the coroutine bodies of evaluate_value / evaluate (MIR), compared with the specified path set; imported cache-transparency (C11) and rule-order (C15) obligations",
    text="All paths of RuleSet::evaluate_value (rule loop unrolled twice) and RuleSet::evaluate are enumerated with their ordered calls: one Outcome{value: stored per-rule result, rule: that rule} pushed per rule in iteration order of a plain forward iteration, no early exit, Ok(all outcomes); evaluate fails only through serialisation and otherwise delegates unchanged.",
    note=TB_MIR + "the per-rule evaluation is opaque here (its isolation rests on C11/C12); Vec::push / slice iteration order (std)."),
  "C10": dict(cat="other", ref="DESIGN.md §3.10", technique="MIR lookup summaries (which key on which container, what on absence) compared with the lookup rules",
    text="Summaries of the identifier lookup (x10 input tags), symbol and function table lookups, the 20 cells of the index step and the evaluator's rows for Reference/Symbol/Function/Index: the key is the node's own unmodified name/index, the container the addressed one, absence gives None for steps and a named error for top-level names.",
    note=TB_MIR + "BTreeMap::get / <[T]>::get compare keys and positions exactly (std)."),
- "C11": dict(cat="other", ref="DESIGN.md §3.11", technique="path + dataflow rules on UserFunctions::call's coroutine MIR and on the route of the cache object",
+ "C11": dict(cat="other", ref="DESIGN.md §3.11", technique="path + dataflow rules on UserFunctions::call's coroutine MIR, the route of the cache object, and a who-may-touch rule (local taint of the cache object over all bodies)",
    text="All 6 paths of UserFunctions::call are enumerated: lookup by name, bypass when not cacheable, same key for get/insert built from name and the whole argument only, hit makes no call, only successes stored, errors wrapped with the name; the cache object is created once per evaluation call and threaded downwards unchanged. Injectivity of the Debug rendering used as key is NOT decided.",
    note=TB_MIR + "BTreeMap semantics (std); key injectivity is an assumption."),
- "C12": dict(cat="other", ref="DESIGN.md §3.12", technique="effect / purity analysis: statics, field types, unsafe, signatures, deny-listed callees on the evaluation call graph, suspension points",
+ "C12": dict(cat="other", ref="DESIGN.md §3.12", technique="effect / purity analysis: statics, field types, unsafe, signatures, deny-listed callees, ambient sources (clock, time zone, env, fs, net, randomness, threads) by reachability in the monomorphic instance graph incl. upstream MIR, suspension points",
    text="Structural premises of determinism and schedule independence: no mutable or interior-mutable static/field, no thread-local, no hand-written unsafe or Future impl, shared-reference entry points, no clock/random/hash-order/thread/env callee reachable from evaluation, every suspension point is an .await. Determinism is claimed given deterministic user functions.",
    note="rustc type facts (Freeze, field types) and resolved call graph; Rust's aliasing guarantees; the deny-list is a list (all reachable callees are enumerated in C01's evidence)."),
  "C15": dict(cat="other", ref="DESIGN.md §3.15", technique="must-pass-through and who-may-write rules over MIR summaries of the builder and the function table",
@@ -48,7 +48,7 @@ CHECKS.update({
    text="15 Send/Sync assertions over the public types, the three evaluation futures and a spawnable shape are type-checked against the current tree (cargo check, nothing executed); the compiler decides them for every instantiation. The run-time clause (same outcomes concurrently) rests on C12's structure and is not re-claimed.",
    note="rustc's trait solver; the witness source engines/typewit; negative twins (thorough) prove the helpers reject Rc / !Send futures."),
  "C19": dict(cat="other", ref="DESIGN.md §3.19", technique="recursion-cycle (SCC) analysis of the monomorphic instance call graph incl. derived impls, fmt fn pointers, vtables and drop glue",
-   text="Every call cycle whose depth follows the nesting of an Expr/Value tree must contain a depth test dominating the recursive calls; the generated LR parser must be non-recursive. Decides the cause of stack exhaustion (unbounded input-driven recursion), not the depth at which a given stack dies. 12 unguarded cycles are known findings.",
+   text="Every call cycle whose depth follows the nesting of an Expr/Value tree must contain a depth test dominating the recursive calls; the generated LR parser must be non-recursive. Decides the cause of stack exhaustion (unbounded input-driven recursion), not the depth at which a given stack dies. 12 unguarded cycles are known findings, and so is the fact that three of them (drop glue of Expr and of Value, the metadata folder) are reachable from parse itself.",
    note="rustc instance resolution and upstream MIR; std-internal bounded recursion (sort, fmt) is excluded by rule."),
 })
 CHECKS.update({
@@ -64,7 +64,7 @@ CHECKS.update({
  "C14": dict(cat="other", ref="DESIGN.md §3.14", technique="tag table of the constant folder + MIR summaries of the rule builder + grammar shape of Rule",
    text="Decided clauses: constant folding is exhaustive over the 47 node kinds (only literals, lists and maps of constants); the metadata table (name key x folded tag, other keys, non-constant -> error naming the key, last occurrence wins); comment name/description only fill in when metadata did not; missing name -> MissingRuleName; Rule = MetaItem* Expr over the same Expr nonterminal. The comment-line extraction itself is NOT decided.",
    note=TB_MIR + "grammar extraction as in C07; std Result-collect / BTreeMap::insert semantics."),
- "C16": dict(cat="other", ref="DESIGN.md §3.16", technique="printer templates (format_args! byte code decoded from MIR) composed and re-parsed with the extracted grammar (Earley over sentential forms); leaf languages and token boundaries by automata on the lexer table",
+ "C16": dict(cat="other", ref="DESIGN.md §3.16", technique="printer templates (format_args! byte code decoded from MIR) composed and re-parsed with the extracted grammar (Earley over sentential forms); leaf languages and token boundaries by automata on the lexer table; name slots of the grammar must be fed by IDENT",
    text="For all 47 node kinds alone and all 2444 (parent, hole, child) compositions the printed token string must parse back to exactly the printed tree; each literal kind's printed language must lie inside its token and strings must be escaped by the inverse of the unescape table; no last token of a child rendering may be extended by the character that follows it. 28 failing obligations are genuine round-trip defects (known findings).",
    note="C07 (grammar == table, unambiguous); Display languages of i128/f64/Decimal from a small trusted table; grandchildren are atoms (depth-2 compositions)."),
 })
